@@ -335,7 +335,8 @@ class StmtMixin:
             e, d = self.sym_elem(it.args[0], site) if isinstance(it.args[0], UList) else (Unknown("elem"), "list")
             return e, f"{d}[{it.args[1]}]"
         if isinstance(it, PList) and len(it.items) == 1 and isinstance(it.items[0], Rep) and len(it.items[0].items) == 1 and not it.sym_elem_of:
-            return it.items[0].items[0], it.items[0].over
+            r0 = it.items[0]
+            return r0.items[0], (f"filtered({r0.over})" if getattr(r0, "filtered", False) else r0.over)
         if isinstance(it, PList):
             # a list containing Rep items: iterate over "an element"
             return Unknown(f"elem(list@{site})"), f"list@{site}"
@@ -678,7 +679,10 @@ class StmtMixin:
         try:
             conds = [self.truth(self.ev(c, inner), c) for c in g.ifs]
             if all(conds):
-                out.append(Rep([self.ev(elt, inner)], over, e))
+                r = Rep([self.ev(elt, inner)], over, e)
+                # some elements are left out: positions in the result are not positions in the source
+                r.filtered = bool(g.ifs)
+                out.append(r)
         finally:
             self.rep_stack.pop()
         return out
